@@ -50,12 +50,14 @@ const svcName = "VerifC15Stream"
 
 // Req is the client's request: Chan names the service channel the handler
 // answers on, Fail makes the handler return an error, Block makes it wait for the
-// driver before it returns.
+// driver before it returns, Share makes it hand out the session-wide stop channel
+// (the documented bidirectional use: same channels for every request).
 type Req struct {
 	Stream int64
 	Chan   int64
 	Fail   int64
 	Block  int64
+	Share  int64 // the handler returns the session's one stop channel instead of a fresh one
 }
 
 // Resp is one streamed value.
@@ -75,6 +77,7 @@ type op struct {
 	Wait  bool   `json:"wait,omitempty"`  // send: wait until the handler was entered / has returned
 	Par   bool   `json:"par,omitempty"`   // run concurrently with the following op(s)
 	P     string `json:"p,omitempty"`     // gate: name of the schedule point (proposed_fixes/C15-hooks.diff)
+	Share bool   `json:"share,omitempty"` // open/send/sendn: the handler hands out the session-wide stop channel
 }
 
 type scenario struct {
@@ -117,6 +120,7 @@ type sess struct {
 	returned int // handler calls returned successfully (= requests)
 	release  chan struct{}
 	cond     *sync.Cond
+	stop     chan bool // stop channel shared by the requests that ask for it
 }
 
 type world struct {
@@ -169,6 +173,14 @@ func (sv *service) handle(m *Req) (chan *Resp, chan bool, error) {
 	ch := ss.chans[m.Chan]
 	ss.Unlock()
 	stop := make(chan bool)
+	if m.Share != 0 {
+		ss.Lock()
+		if ss.stop == nil {
+			ss.stop = make(chan bool)
+		}
+		stop = ss.stop
+		ss.Unlock()
+	}
 	go func() {
 		<-stop
 		w.stamp(ss.idx, "OStop", k, 0)
@@ -271,7 +283,10 @@ func stackHas(a, b string) bool {
 }
 
 // readerBlocked: a reader goroutine of wsHandler.ServeHTTP is parked in a channel send
-func readerBlocked() bool { return stackHas("[chan send", "wsHandler.ServeHTTP.func") }
+// (pinned code) or in the select around it (with the F19 repair)
+func readerBlocked() bool {
+	return stackHas("[chan send", "wsHandler.ServeHTTP.func") || stackHas("[select", "wsHandler.ServeHTTP.func")
+}
 
 type child struct {
 	srv  *onet.Server
@@ -300,6 +315,13 @@ func (c *child) start() bool {
 		time.Sleep(10 * time.Millisecond)
 	}
 	return false
+}
+
+func b2i(b bool) int64 {
+	if b {
+		return 1
+	}
+	return 0
 }
 
 func closeCode(err error) string {
@@ -493,7 +515,7 @@ func (c *child) runScenario(sc *scenario) endInfo {
 				startReader(i)
 				return
 			}
-			if err := sendReq(i, &Req{Stream: ids[i], Chan: int64(o.C)}); err != nil {
+			if err := sendReq(i, &Req{Stream: ids[i], Chan: int64(o.C), Share: b2i(o.Share)}); err != nil {
 				info.Discard = true
 				return
 			}
@@ -525,7 +547,7 @@ func (c *child) runScenario(sc *scenario) endInfo {
 			// V valid follow-ups back to back, nothing awaited
 			for k := 0; k < o.V && !cl[i].left; k++ {
 				w.stamp(i, "OSend", 0, o.C)
-				if sendReq(i, &Req{Stream: ids[i], Chan: int64(o.C)}) != nil {
+				if sendReq(i, &Req{Stream: ids[i], Chan: int64(o.C), Share: b2i(o.Share)}) != nil {
 					break
 				}
 			}
@@ -537,11 +559,20 @@ func (c *child) runScenario(sc *scenario) endInfo {
 			}
 		case "gate":
 			// hold the next goroutine that reaches the schedule point
-			gate = sched.Block(o.P, 1, nil)
+			max := o.V
+			if max <= 0 {
+				max = 1
+			}
+			gate = sched.Block(o.P, max, nil)
 		case "waithit":
 			// the point is only there once C15-hooks.diff is applied: otherwise the scenario is not reached
 			if gate == nil || !gate.WaitHit(300*time.Millisecond) {
 				info.Discard = true
+			}
+		case "waithitopt":
+			// a further goroutine may or may not get to the point (not judged)
+			if gate != nil {
+				gate.WaitHit(time.Duration(o.V) * time.Millisecond)
 			}
 		case "ungate":
 			if gate != nil {
@@ -569,7 +600,7 @@ func (c *child) runScenario(sc *scenario) endInfo {
 			if o.Block {
 				b = 1
 			}
-			sendReq(i, &Req{Stream: ids[i], Chan: int64(o.C), Block: b})
+			sendReq(i, &Req{Stream: ids[i], Chan: int64(o.C), Block: b, Share: b2i(o.Share)})
 			if o.Wait {
 				s.waitCond(2*time.Second, func() bool {
 					if o.Block {
